@@ -11,7 +11,8 @@
    documented one in (5). *)
 From Coq Require Import String.
 From YV Require Import PyBase CharTables ShellMap Token Utils Scanner PState Exec Tex2txt
-                       ScanPlain ExecPlain SpecialsProofs RpalProofs ExecUnk ExecArgs Catalogue.
+                       ScanPlain ExecPlain SpecialsProofs RpalProofs ExecUnk ExecArgs ClassDecide
+                       Catalogue.
 Open Scope Z_scope.
 
 (* table obligations, discharged by computation on the generated tables *)
@@ -93,17 +94,30 @@ Print Assumptions C06_replacement_step.
    special sequences, undeclared control words, comments, braces and nested
    pass-through macros: the visible one-line text of the output is the text
    tokens of the document, each at its place, and for each special sequence
-   its tabulated text at the position of the sequence (rtoks), in order *)
+   its tabulated text at the position of the sequence (rtoks), in order; a
+   line break \\ without option is one blank at its position *)
 Theorem C06_specials_end_to_end : forall rd fuel toks st st' out,
   bcl py_tables (macros st) toks ->
   exec py_tables rd fuel (TSeq toks None []) st = Ok (st', ASeq out []) ->
   filter (solid py_isspace) out = filter (solid py_isspace) (texts (rtoks py_tables (macros st) toks)).
 Proof.
   exact (fun rd fuel toks st st' out =>
-           exec_args_positions py_tables rd (eq_refl true) (fun c => eq_refl) (eq_refl true)
+           exec_args_positions py_tables rd (eq_refl true) (fun c => eq_refl) (conj eq_refl eq_refl) (eq_refl true)
                                fuel toks st st' out (eq_refl true)).
 Qed.
 Print Assumptions C06_specials_end_to_end.
+
+(* a document of the class with the documented sequences *)
+Example C06_class_example :
+  let st0 := Exec.init_state py_tables (s2l "en") false false true in
+  let latex := s2l "a\\ b -- c~d \% e" in
+  ClassDecide.doc_in_class py_tables st0 latex = true /\
+  match Parser.parser_work py_tables (exec py_tables (fun _ => None) 200) st0 latex with
+  | Ok r => Some (get_txt_pos (snd r))
+  | _ => None end
+  = Some ([97; 32; 32; 98; 32; 8211; 32; 99; 160; 100; 32; 37; 32; 101]%N,
+          [0; 1; 3; 4; 5; 6; 8; 9; 10; 11; 12; 13; 15; 16]).
+Proof. split; vm_compute; reflexivity. Qed.
 
 (* (5) the table read from /repo is the documented one *)
 Example C06_documented_table :
